@@ -99,17 +99,21 @@ func bigWriteReq(handle uint32, n int) *ua.WriteRequest {
 
 // pair dials a real client channel against the echo server over the virtual network.
 func pair(ctx context.Context, srv *echoServer, ccfg *uasc.Config) (*uasc.SecureChannel, chan error) {
-	l, err := uacp.Listen(ctx, url, srv.ack)
+	return pairURL(ctx, srv, ccfg, url)
+}
+
+func pairURL(ctx context.Context, srv *echoServer, ccfg *uasc.Config, u string) (*uasc.SecureChannel, chan error) {
+	l, err := uacp.Listen(ctx, u, srv.ack)
 	if err != nil {
 		panic(err)
 	}
 	go srv.run(ctx, l)
-	conn, err := uacp.Dial(ctx, url)
+	conn, err := uacp.Dial(ctx, u)
 	if err != nil {
 		panic(err)
 	}
 	errch := make(chan error, 8)
-	sc, err := uasc.NewSecureChannel(url, conn, ccfg, errch)
+	sc, err := uasc.NewSecureChannel(u, conn, ccfg, errch)
 	if err != nil {
 		panic(err)
 	}
